@@ -402,19 +402,25 @@ def label_correspondence(tier, seed):
     names = [EX["k"], EX["k<2>"], AMP["n&m"], M.PROV["label"], M.PROV["type"], M.PROV["value"], M.PROV["location"], M.PROV["role"]]
     n = 120 if tier == "quick" else 1500
     cases, reqs = [], []
+    forced = [M.Literal(t, langtag="en") for t in ("R&D <draft> report", "<b>approved</b>", 'q"uote', "it's", "plain")] + \
+             ["a<b & c>d", "<TD>x</TD>", "&amp;"]
     for i in range(n):
         d = M.ProvDocument()
         d.add_namespace(EX); d.add_namespace(AMP)
         kind = rng.choice(["entity", "activity", "agent", "relation"])
         attrs = []
+        if i < 2 * len(forced):
+            # the first cases: every label of a fixed list (plain and language-tagged, full of markup), drawn under it
+            kind = ["entity", "agent"][i % 2]
+            attrs.append((M.PROV["label"], forced[i // 2]))
         for _ in range(rng.choice([1, 1, 2, 3, 5])):
             a = rng.choice(names)
             if a == M.PROV["value"] and any(x == a for x, _ in attrs):
                 continue
             v = rng.choice(values) if rng.random() > 0.05 else rng.choice(ctrl)
             attrs.append((a, v))
-        use_labels = rng.random() < 0.5
-        if use_labels and kind != "relation" and rng.random() < 0.7:
+        use_labels = rng.random() < 0.5 or i < 2 * len(forced)
+        if use_labels and kind != "relation" and rng.random() < 0.7 and i >= 2 * len(forced):
             attrs.append((M.PROV["label"], rng.choice(texts + [M.Literal("l<a>b", langtag="en")])))
         # at most one prov:label: with several, which one an element is drawn under follows the iteration order of a set
         seen_label = False
@@ -551,7 +557,16 @@ def fixed_programs():
     PROVU = "http://www.w3.org/ns/prov#"
     b = ["b", "0", "0"]
     t = ["time", "2012", "3", "31", "9", "21", "0", "0", "none"]
-    return [[["NewDoc"], ["AddNs", ["d", "0"], "ex", EXU],
+    same = [["NewDoc"], ["AddNs", ["d", "0"], "ex", "http://a.test/"],
+            ["NewRecord", ["d", "0"], "Entity", ["S", "ex:e1"], []], ["NewRecord", ["d", "0"], "Activity", ["S", "ex:a1"], []],
+            ["NewRecord", ["d", "0"], "Generation", "none", [[["Q", "prov", PROVU, "entity"], ["str", "ex:e1"]], [["Q", "prov", PROVU, "activity"], ["str", "ex:a1"]]]],
+            ["NewBundle", "0", ["S", "ex:b"]], ["AddNs", b, "ex", "http://b.test/"],
+            ["NewRecord", b, "Entity", ["S", "ex:e1"], []], ["NewRecord", b, "Activity", ["S", "ex:a1"], []],
+            ["NewRecord", b, "Generation", "none", [[["Q", "prov", PROVU, "entity"], ["str", "ex:e1"]], [["Q", "prov", PROVU, "activity"], ["str", "ex:a1"]]]],
+            ["NewRecord", b, "Usage", "none", [[["Q", "prov", PROVU, "activity"], ["str", "ex:a1"]], [["Q", "prov", PROVU, "entity"], ["str", "ex:undeclared"]]]],
+            ["NewRecord", ["d", "0"], "Usage", "none", [[["Q", "prov", PROVU, "activity"], ["str", "ex:a1"]], [["Q", "prov", PROVU, "entity"], ["str", "ex:undeclared"]]]]]
+    return [same,
+            [["NewDoc"], ["AddNs", ["d", "0"], "ex", EXU],
              ["NewRecord", ["d", "0"], "Entity", ["S", "ex:top"], [[["S", "ex:k"], ["str", "v"]]]],
              ["NewBundle", "0", ["S", "ex:b"]],
              ["NewRecord", b, "Entity", ["S", "ex:e"], [[["S", "ex:k"], ["str", "one"]]]],
